@@ -387,6 +387,7 @@ Proof.
   destruct (reg (reg_fuel d) d (TSym (d_start d)) r0) as [r|] eqn:E; cbn [bind] in H; [|discriminate].
   match type of H with context [dist_loop ?a ?b ?c ?e ?f] => destruct (dist_loop a b c e f) as [m|] end;
     cbn [bind] in H; [|discriminate].
+  match type of H with context [if ?b then _ else _] => destruct b end; [|discriminate].
   inversion H; subst; simpl. split; reflexivity.
 Qed.
 
